@@ -64,6 +64,19 @@ def r1_adoption_precedes_start(chk: Check):
     # the adoption sets RUNNING before waiting so that nothing else starts it
     run = [n for n in g.live if n.kind == "stmt" and src(n.ast) == "job.state = JobState.RUNNING" and g.dominates(tb, n)]
     chk.require(len(run) == 1 and waits and g.dominates(run[0], waits[0]), chk.fkey(sub, "adoption marks running"), "an adopted job must be marked RUNNING before waiting for it", loc)
+    # a finished job is not adopted: the pid file of a job whose success marker exists is stale (pid re-use) -- adoption is entered only with the
+    # job state open, and the marker was turned into DONE before that test
+    for r in run:
+        gs = [(src(x.ast), pol) for x, pol in g.guards(r) if x.kind == "test"]
+        chk.require(("job.state.finished()", False) in gs, chk.fkey(sub, "no adoption of a finished job"), "a job already final (success marker, cancelled) is marked RUNNING when a process matches its pid file", loc)
+        marker = []
+        for x in g.live:
+            if x.kind == "test" and src(x.ast) in ("job.donepath.exists()", "job.donepath.is_file()"):
+                nxt = [m for b, l in x.succ if l is True for m, _ in b.succ]
+                if any(m.kind == "stmt" and src(m.ast) == "job.state = JobState.DONE" for m in nxt):
+                    marker.append(x)
+        chk.require(bool(marker) and g.must_pass(g.entry, r, marker), chk.fkey(sub, "marker read before adoption"),
+                    "the adoption branch is reachable without the success marker having been turned into DONE: a job that succeeded earlier waits for whatever process re-used its pid", loc)
 
 
 def r2_adoption_decision(chk: Check):
